@@ -9,7 +9,7 @@ from .lib_c10 import (HANDLER_CALL, MEMBER_FROM_REQUEST, TOP_FROM_REQUEST, censu
 LEVEL = "other"
 TECHNIQUE = ("static analysis: edge dominance of the handler call by the extractor's Ok edge, error-preserving chain over the tuple extractors, "
              "who-constructs census of HttpError and a panic-site census over the call-graph region between route lookup and the handler, "
-             "16-cell evaluation of the content-type gate")
+             "16-cell evaluation of the content-type gate (switches on the two discriminants and eq-tests of them, also through `!` and named flags)")
 LEVEL_TEXT = ("Decides on the type-checked MIR of the current tree: (R1) the only call of a handler function (HttpHandlerFunc::handle_request) in the crate is dominated by the "
               "Continue edge of `?` on RequestExtractor::from_request's result, receives that edge's payload, and the Break edge reaches no handler call; "
               "(R2) every tuple impl of RequestExtractor calls exactly one member from_request per tuple position with this invocation's rqctx/request and its "
@@ -435,17 +435,20 @@ def r5_content_type_gate(ctx):
             dbb, kind, node = info["def"]
             neg = False
             cur = (kind, node)
-            for _ in range(3):
+            for _ in range(6):
+                # through `!x` and through let-bound copies of the comparison's result (a named flag)
                 k2, n2 = cur
                 if k2 == "assign" and n2["rv"]["rv"] == "unop" and n2["rv"]["op"] == "Not":
                     neg = not neg
                     l = operand_local(n2["rv"]["a"])
-                    dd = f.defs().get(l, []) if l is not None else []
-                    if len(dd) != 1:
-                        break
-                    cur = (dd[0][1], dd[0][2])
+                elif k2 == "assign" and n2["rv"]["rv"] == "use" and not n2["pl"]["p"]:
+                    l = operand_local(n2["rv"]["op"])
                 else:
                     break
+                dd = f.defs().get(l, []) if l is not None else []
+                if len(dd) != 1:
+                    break
+                cur = (dd[0][1], dd[0][2])
             k2, n2 = cur
             if k2 == "call" and (n2.get("callee") or "").endswith(("cmp::PartialEq::eq", "cmp::PartialEq::ne")) and len(n2["args"]) == 2:
                 ra, rb = role(n2["args"][0]), role(n2["args"][1])
@@ -618,6 +621,63 @@ where
 }
 """
 
+_DECODE_ARMS = """        (Json, Json) => {
+            let jd = &mut serde_json::Deserializer::from_slice(&body);
+            serde_path_to_error::deserialize(jd).map_err(|e| {
+                HttpError::for_bad_request(
+                    None,
+                    format!("unable to parse JSON body: {}", e),
+                )
+            })?
+        }
+        (UrlEncoded, UrlEncoded) => {
+            let ud = serde_urlencoded::Deserializer::new(
+                form_urlencoded::parse(&body),
+            );
+            serde_path_to_error::deserialize(ud).map_err(|e| {
+                HttpError::for_bad_request(
+                    None,
+                    format!("unable to parse URL-encoded body: {}", e),
+                )
+            })?
+        }
+"""
+_DECODE_ARMS_HELPERS = """        (Json, Json) => decode_json_body(&body)?,
+        (UrlEncoded, UrlEncoded) => decode_urlencoded_body(&body)?,
+"""
+_LOAD_BODY_DOC = """/// Given an HTTP request, attempt to read the body, parse it according
+/// to the content type"""
+_DECODE_HELPERS = """fn decode_json_body<T: DeserializeOwned>(raw: &[u8]) -> Result<T, HttpError> {
+    let jd = &mut serde_json::Deserializer::from_slice(raw);
+    match serde_path_to_error::deserialize(jd) {
+        Ok(value) => Ok(value),
+        Err(e) => Err(HttpError::for_bad_request(
+            None,
+            format!("unable to parse JSON body: {}", e),
+        )),
+    }
+}
+
+fn decode_urlencoded_body<T: DeserializeOwned>(
+    raw: &[u8],
+) -> Result<T, HttpError> {
+    let pairs = form_urlencoded::parse(raw);
+    let ud = serde_urlencoded::Deserializer::new(pairs);
+    serde_path_to_error::deserialize(ud).map_err(|e| {
+        HttpError::for_bad_request(
+            None,
+            format!("unable to parse URL-encoded body: {}", e),
+        )
+    })
+}
+
+"""
+# shared with c09.SELFTEST: the same refactoring must be silent under both properties
+DECODE_HELPERS_VARIANT = {"name": "decode-arms-in-generic-helpers", "kind": "benign",
+                          "edits": [("dropshot/src/extractor/body.rs", _DECODE_ARMS, _DECODE_ARMS_HELPERS), ("dropshot/src/extractor/body.rs", _LOAD_BODY_DOC, _DECODE_HELPERS + _LOAD_BODY_DOC)],
+                          "why": "behaviour-preserving: the two decode arms move into private generic helpers (one with match instead of map_err); the decoded type is now the "
+                                 "helpers' own type parameter and the 400 is built next to the Ok value in the inlined body"}
+
 SELFTEST = [
     {"name": "path-error-500", "kind": "mutant",
      "edits": [("dropshot/src/http_util.rs",
@@ -662,6 +722,7 @@ SELFTEST = [
      "edits": [("dropshot/src/extractor/body.rs", "        ApiEndpointBodyContentType::from_mime_type(&mime_type)\n            .map_err(|e| HttpError::for_bad_request(None, e))?;",
                 "        match ApiEndpointBodyContentType::from_mime_type(&mime_type) {\n            Ok(known) => known,\n            Err(unknown) => {\n                return Err(HttpError::for_bad_request(None, unknown));\n            }\n        };")],
      "why": "behaviour-preserving: `.map_err(..)?` spelled as match with early return"},
+    DECODE_HELPERS_VARIANT,
     {"name": "unit-tuple-match-instead-of-try", "kind": "benign",
      "edits": [("dropshot/src/extractor/common.rs", "        Ok((X::from_request(rqctx, request).await?,))",
                 "        match X::from_request(rqctx, request).await {\n            Ok(x) => Ok((x,)),\n            Err(e) => Err(e),\n        }")],
